@@ -732,4 +732,113 @@ def serde_attrs(*files):
     return "\n".join(out) + "\n"
 
 
-GENERATORS = {"serde_attrs": serde_attrs, "config_consts": config_consts, "auth_methods": auth_methods, "config_statics": config_statics, "record_codecs": record_codecs, "request_limits": request_limits}
+def lock_discipline(relfile, *fields):
+    """C09 (`wedge the server`): the discipline of the SharedData locks of one file.  std::sync::RwLock may deadlock when the
+    thread that holds a read guard asks for the lock again while a writer is queued, and two locks taken in both orders can
+    deadlock two threads.  `read_fn` / `write_fn` / `write_fn_unchecked` / `read()` therefore have the precondition `the calling
+    thread does not hold this lock`, and every call made INSIDE the closure of one of them has to discharge it:
+      - one obligation per method call `self.g(..)` made while lock L is held: g does not (transitively, through self-calls)
+        take L;
+      - one obligation per lock M taken while L is held: nowhere in the file is L taken while M is held (one order).
+    The facts (which function takes which lock, what is called inside which closure) are re-read from the source on every run -
+    a syntactic scan, stated as such; the obligations are discharged by the verifier.  Closures are found by bracket matching
+    on the masked text; a lock region is the argument list of the call (for `read()`: the statement it occurs in)."""
+    from rustscan import code_mask, match_delim
+    text = open(os.path.join(REPO, relfile)).read()
+    i = text.find("#[cfg(test)]")
+    if i >= 0:
+        text = text[:i]
+    mask = code_mask(text)
+    fields = list(fields) or ["db"]
+    fns = {}
+    for m in re.finditer(r"\bfn (\w+)\s*(?:<[^>(]*>)?\s*\(", mask):
+        pe = match_delim(mask, mask.find("(", m.start()))
+        ob = mask.find("{", pe)
+        semi = mask.find(";", pe)
+        if ob < 0 or (0 <= semi < ob):
+            continue
+        fns[m.group(1)] = (ob, match_delim(mask, ob))
+    if not fns:
+        raise GenError("lock_discipline: no function found in %s" % relfile)
+    ACQ = r"self\s*\.(%s)\s*\.(read_fn|write_fn|write_fn_unchecked|read)\s*\(" % "|".join(map(re.escape, fields))
+    direct = {f: set() for f in fns}      # locks taken directly
+    calls = {f: set() for f in fns}       # self-methods called anywhere
+    regions = []                          # (fn, lock, op, line, inner text)
+    for f, (a, b) in fns.items():
+        body = mask[a:b]
+        calls[f] = set(re.findall(r"\bself\s*\.(\w+)\s*\(", body)) | set(re.findall(r"\bSelf::(\w+)\s*\(", body))
+        for m in re.finditer(ACQ, body):
+            direct[f].add(m.group(1))
+            op = a + m.end() - 1
+            if m.group(2) == "read":
+                # the guard is a temporary: it lives to the end of the enclosing statement
+                # (what is evaluated after it: the rest of the method chain and its arguments)
+                k = match_delim(mask, op)
+                depth = 0
+                en = k
+                while en < b:
+                    ch = mask[en]
+                    if ch in "([{":
+                        depth += 1
+                    elif ch in ")]}":
+                        if depth == 0:
+                            break
+                        depth -= 1
+                    elif ch == ";" and depth == 0:
+                        break
+                    en += 1
+                inner = mask[k:en]
+            else:
+                inner = mask[op:match_delim(mask, op)]
+            regions.append((f, m.group(1), m.group(2), mask[:a + m.start()].count("\n") + 1, inner))
+    # transitive: which locks may a call of f take
+    takes = {f: set(direct[f]) for f in fns}
+    changed = True
+    while changed:
+        changed = False
+        for f in fns:
+            for g in calls[f]:
+                if g in takes and not takes[g] <= takes[f]:
+                    takes[f] |= takes[g]
+                    changed = True
+    nested = set()   # (outer lock, inner lock) observed
+    for (f, L, op, line, inner) in regions:
+        for m in re.finditer(ACQ, inner):
+            nested.add((L, m.group(1)))
+    out = ["// ==== generated on this run from %s: lock regions of %s ====" % (relfile, ", ".join("self." + x for x in fields)),
+           "// precondition of read_fn / write_fn / write_fn_unchecked / read(): the calling thread does not hold that lock",
+           "pub open spec fn callee_does_not_take_held_lock(callee_takes_it: bool) -> bool { !callee_takes_it }",
+           "pub open spec fn one_acquisition_order(reverse_order_occurs: bool) -> bool { !reverse_order_occurs }"]
+    n = 0
+    for (f, L, op, line, inner) in regions:
+        for g in sorted(set(re.findall(r"\bself\s*\.(\w+)\s*\(", inner)) | set(re.findall(r"\bSelf::(\w+)\s*\(", inner))):
+            if g not in fns:
+                continue
+            out.append("// %s:%d  `%s` calls `%s(..)` inside self.%s.%s(..)" % (relfile, line, f, g, L, op))
+            out.append("proof fn prop_lock_%s_holding_%s_calls_%s() ensures callee_does_not_take_held_lock(%s) {}" % (f, L, g, "true" if L in takes[g] else "false"))
+            n += 1
+        for m in re.finditer(ACQ, inner):
+            M = m.group(1)
+            if M == L:
+                out.append("// %s:%d  `%s` takes self.%s again inside self.%s.%s(..)" % (relfile, line, f, M, L, op))
+                out.append("proof fn prop_lock_%s_holding_%s_retakes_it() ensures callee_does_not_take_held_lock(true) {}" % (f, L))
+            else:
+                out.append("// %s:%d  `%s` takes self.%s while holding self.%s" % (relfile, line, f, M, L))
+                out.append("proof fn prop_lock_order_%s_%s_then_%s() ensures one_acquisition_order(%s) {}" % (f, L, M, "true" if (M, L) in nested else "false"))
+            n += 1
+    seen, ded = set(), []
+    for ln in out:
+        if ln.startswith("proof fn prop_lock"):
+            if ln in seen:
+                ded.pop()      # its comment line
+                n -= 1
+                continue
+            seen.add(ln)
+        ded.append(ln)
+    out = ded
+    out.append("// %d lock regions in %d functions, %d obligations" % (len(regions), len(fns), n))
+    out.append("proof fn prop_lock_regions_seen() ensures %d > 0 {}" % len(regions))
+    return "\n".join(out) + "\n"
+
+
+GENERATORS = {"serde_attrs": serde_attrs, "config_consts": config_consts, "auth_methods": auth_methods, "config_statics": config_statics, "record_codecs": record_codecs, "request_limits": request_limits, "lock_discipline": lock_discipline}
